@@ -75,6 +75,14 @@ class Rendered:
         self.def_name_pos = {}  # idx -> (line1, col_start, col_end) of the function name
 
 
+RET_TYPES = ["int", "str", "bytes", "float", "bool", "list", "dict", "set", "tuple", "complex", "object", "bytearray",
+             "frozenset", "range", "slice", "type"]
+
+
+def ret_type_of(uni, slot):
+    return RET_TYPES[sorted(uni.paths).index(slot) % len(RET_TYPES)]
+
+
 def render_module(uni, slot, module, style=None):
     """module: {"present":..,"valid":..,"items":[item..]} as printed by TLC. Returns Rendered."""
     r = Rendered()
@@ -94,13 +102,16 @@ def render_module(uni, slot, module, style=None):
             lines.append("@pytest.fixture" + ("(%s)" % ", ".join(args) if args else ""))
             deps = _seq(it["deps"])
             head = "def %s(" % it["name"]
+            # every file annotates its fixtures with ITS OWN return type: inlay hints and hover then tell which
+            # definition a feature is describing
+            ret = " -> %s" % ret_type_of(uni, slot)
             if style == "wrap" and deps:
                 # wrapped signature: one parameter per line below the def line
                 lines.append(head)
                 for j, d in enumerate(deps):
                     r.use_pos[(idx, "p", j + 1)] = (len(lines) + 1, 4, 4 + len(d))
                     lines.append("    %s," % d)
-                lines.append("):")
+                lines.append(")%s:" % ret)
             else:
                 col = len(head)
                 parts = []
@@ -108,7 +119,7 @@ def render_module(uni, slot, module, style=None):
                     r.use_pos[(idx, "p", j + 1)] = (ln + 1, col, col + len(d))
                     parts.append(d)
                     col += len(d) + 2
-                lines.append(head + ", ".join(parts) + "):")
+                lines.append(head + ", ".join(parts) + ")%s:" % ret)
             lines.append("    return 1")
             r.item_line[idx] = ln + 1
             r.def_name_pos[idx] = (ln + 1, 4, 4 + len(it["name"]))
